@@ -20,6 +20,7 @@ def loop : LoopFacts := default
 def expo : ExpoFacts := default
 def retryAfter : RetryAfterFacts := default
 def policies : PolicyFacts := default
+def clientWiredToPolicy : Bool := false
 end GoUtils.Generated.Retry
 `
 
@@ -126,6 +127,21 @@ func extractRetry(root string) (string, map[string]any, error) {
 		return "", nil, fmt.Errorf("findRetryAfter: unrecognised statement before the multiplication: %s", rm[1])
 	}
 	facts["retryAfter"] = map[string]any{"statuses": []int{429, 503}, "negativeToZero": true, "upperClampSeconds": clamp}
+	// the retryable client takes its attempt limit, its waits, its retry decision and its back-off from the policy
+	wired := false
+	if hp2, herr := parseDir(filepath.Join(root, "http")); herr == nil {
+		if cf := hp2.funcDecl("NewConfigurableRetryableClientWithLoggerFromClient"); cf != nil {
+			cs := strings.Join(strings.Fields(hp2.src(cf.Body)), " ")
+			wired = true
+			for _, need := range []string{"RetryWaitMin: cfg.RetryPolicy.RetryWaitMin,", "RetryWaitMax: cfg.RetryPolicy.RetryWaitMax,", "RetryMax: cfg.RetryPolicy.RetryMax,",
+				"CheckRetry: retryablehttp.DefaultRetryPolicy,", "Backoff: BackOffPolicyFactory(&cfg.RetryPolicy).Apply,"} {
+				if !strings.Contains(cs, need) {
+					wired = false
+				}
+			}
+		}
+	}
+	facts["clientWiredToPolicy"] = wired
 	var b strings.Builder
 	b.WriteString("import GoUtils.Model.Retry\nnamespace GoUtils.Generated.Retry\nopen GoUtils.Retry\ndef ok : Bool := true\n")
 	fmt.Fprintf(&b, "def loop : LoopFacts := { disabledRunsOnce := %s, lastErrorOnly := %s, usesRetryIf := %s, usesContext := %s, convertsContextError := %s }\n",
@@ -133,6 +149,7 @@ func extractRetry(root string) (string, map[string]any, error) {
 	fmt.Fprintf(&b, "def expo : ExpoFacts := { capIsStrict := %s, capToMax := %s }\n", leanBool(em[1] == ">"), leanBool(em[2] == "max"))
 	fmt.Fprintf(&b, "def retryAfter : RetryAfterFacts := { statuses := [429, 503], negativeToZero := true, upperClampSeconds := %s }\n", clamp)
 	b.WriteString("def policies : PolicyFacts := { basicReturnsMin := true, retryAfterFirstWhenEnabled := true, factoryDisabledIsBasic := true }\n")
+	fmt.Fprintf(&b, "def clientWiredToPolicy : Bool := %s\n", leanBool(wired))
 	b.WriteString("end GoUtils.Generated.Retry\n")
 	_ = ast.Inspect
 	return b.String(), facts, nil
